@@ -31,7 +31,7 @@
    completed (the guard of the model; liveness - "the shutdown still completes" - is not proved here). *)
 From Coq Require Import List ZArith NArith Bool.
 From PC.Base Require Import Assoc.
-From PC.Sup Require Import Model Monitors Sim SimC12 ExC12.
+From PC.Sup Require Import Model Monitors Sim MonC12w SimC12 ExC12.
 Import ListNotations.
 
 Theorem C12_main_partial : forall cs ord evs s,
